@@ -288,7 +288,63 @@ def c12_finalize(h1: int, h2: int, fault: int, has: bool, v0: int, w1: int, w2: 
   return gin.config_is_locked() and _snapshot() == want
 
 
+def c12_deferred(created_locked: bool, change: int, how: int, raises: bool, v1: int) -> bool:
+  """
+  pre: 0 <= change < 3 and 0 <= how < 2
+  """
+  world.fresh()
+  created_locked, raises = rt.flag(created_locked), rt.flag(raises)
+  change = rt.pick(change, 3)     # between creation and entry: nothing / finalize / clear_config
+  how = rt.pick(how, 2)           # stored context manager / decorator
+  rt.sig(('deferred', created_locked, change, how, raises), nontrivial=change != 0)
+  if created_locked:
+    gin.finalize()
+  if change == 1 and created_locked:
+    rt.discard()
+  seen = []
+
+  def body():
+    seen.append(gin.config_is_locked())
+    gin.bind_parameter('vw.dflt.a', v1)
+    if raises:
+      raise Boom()
+
+  if how == 0:
+    cm = gin.unlock_config()
+  else:
+    decorated = gin.unlock_config()(body)
+  if change == 1:
+    gin.finalize()
+  elif change == 2:
+    gin.clear_config()
+  entry = gin.config_is_locked()
+  try:
+    if how == 0:
+      with cm:
+        body()
+    else:
+      decorated()
+  except Boom:
+    if not raises:
+      return False
+  # inside the block the config is unlocked; afterwards the state that held ON ENTRY is back
+  if seen != [False]:
+    return rt.no('the body ran with lock state %r' % (seen,))
+  if gin.config_is_locked() != entry:
+    return rt.no('lock state after the block is %r, on entry it was %r' % (gin.config_is_locked(), entry))
+  return rt.same('bound inside', gin.query_parameter('vw.dflt.a'), v1)
+
+
 HARNESSES = {
+    'c12_deferred': dict(
+        fn='c12_deferred',
+        anchors=['gin.config:unlock_config'],
+        smoke=[dict(created_locked=False, change=1, how=0, raises=False, v1=3),
+               dict(created_locked=True, change=2, how=1, raises=True, v1=3)],
+        tiers={'quick': dict(split=dict(change=[0, 1, 2]), budget_s=60),
+               'thorough': dict(split=dict(change=[0, 1, 2]), budget_s=60)},
+        bounds='unlock_config() created (as a stored context manager or as a decorator) in one lock state and entered '
+               'after finalize / clear_config changed it; body binds, optionally raises'),
     'c12_step': dict(
         fn='c12_step',
         anchors=['gin.config:unlock_config', 'gin.config:finalize', 'gin.config:bind_parameter',
